@@ -357,6 +357,42 @@ func TestC15_P_ShardedDirs(t *testing.T) {
 			if cerr != nil {
 				t.Fatalf("C15: sharded directory (%s, fanout %d, %d names, depth %d) via %s: %v", src, fanout, len(names), depth, reifier, cerr)
 			}
+			// the same contract on a node with a history: partial iterations, lookups and Length() calls in a drawn order
+			// happen BEFORE the contract is checked (nothing has asked this node for its length yet)
+			nops := rapid.IntRange(1, 4).Draw(t, "historyOps")
+			hist := ""
+			must(t, "map contract after history (sharded)", func() {
+				var rn datamodel.Node
+				rn, cerr = loadReified(ls, root, reifier)
+				if cerr != nil {
+					return
+				}
+				for i := 0; i < nops; i++ {
+					switch rapid.IntRange(0, 3).Draw(t, "historyOp") {
+					case 0, 1:
+						steps := rapid.IntRange(0, len(names)+1).Draw(t, "steps")
+						hist += fmt.Sprintf("iter(%d) ", steps)
+						it := rn.MapIterator()
+						for j := 0; j < steps && !it.Done(); j++ {
+							_, _, _ = it.Next()
+						}
+					case 2:
+						k := "nope"
+						if len(names) > 0 {
+							k = rapid.SampledFrom(names).Draw(t, "lookup")
+						}
+						hist += "lookup "
+						_, _ = rn.LookupByString(k)
+					case 3:
+						hist += "length "
+						_ = rn.Length()
+					}
+				}
+				_, cerr = checkMapContract(rn, []string{"nope", ""})
+			})
+			if cerr != nil {
+				t.Fatalf("C15: sharded directory (%s, fanout %d, %d names, depth %d) via %s after history [%s]: %v", src, fanout, len(names), depth, reifier, hist, cerr)
+			}
 		}
 		ev.Case(fmt.Sprintf("%s f=%d n=%s d=%d", src, fanout, bucket(len(names)), depth), depth >= 2, "source:"+src, "depth:"+bucket(depth))
 		ev.Sample(map[string]any{"source": src, "fanout": fanout, "names": len(names), "depth": depth})
